@@ -118,6 +118,11 @@ def write_case(dirpath: str, case: dict) -> dict:
         os.makedirs(os.path.dirname(p), exist_ok=True)
         with open(p, 'w') as f:
             f.write(text)
+    for target, link in case.get('links', []):          # the same file reachable under a second name (hard link)
+        lp = os.path.join(dirpath, link)
+        os.makedirs(os.path.dirname(lp), exist_ok=True)
+        if not os.path.exists(lp):
+            os.link(os.path.join(dirpath, target), lp)
     main = os.path.join(dirpath, case.get('main', 'main.asm'))
     return {'config': cfg_path, 'main': main, 'out': os.path.join(dirpath, 'out.bin'),
             'pp': os.path.join(dirpath, 'out.txt')}
